@@ -1,5 +1,6 @@
 import RainModel.Model.Validate
 import RainModel.Lemmas.Path
+import RainModel.Lemmas.Utf8
 import RainModel.Lemmas.Validate
 /-!
 C07 — path confinement.  Property theorems only; helper lemmas live in `Lemmas/Path.lean` and
@@ -17,19 +18,29 @@ theorem clean_no_sep (s : Bytes) (max : Nat) : SLASH ∉ cleanNameN s max := by
   · simp [SLASH, UNDERSCORE] at h
   · rename_i hb; exact hb h
 
-/-- **clean_dotdot_iff (full statement).** No cleaning step manufactures an empty name, a `.` or
-a `..`: `cleanName s` is one of them only if `s` already was.  (The converse directions hold by
-computation, see `clean_special_conv`.)  Proved below for ASCII names (`clean_special_ascii`);
-for arbitrary byte strings it is an explicit hypothesis of `join_confined_partial` and is tested on
-the real `cleanName` by the `paths` suite (`clean-manufactured-dotdot` oracle). -/
+/-- The statement `clean_dotdot_iff` quantifies over: no cleaning step manufactures an empty name,
+a `.` or a `..`. -/
 def clean_dotdot_iff_full : Prop :=
   ∀ s : Bytes, (cleanName s = [] → s = []) ∧ (cleanName s = dot → s = dot) ∧
     (cleanName s = dotdot → s = dotdot)
 
+/-- **clean_dotdot_iff.** For *every* byte string `s` (invalid UTF-8, over-long, anything):
+`cleanName s = ".." ↔ s = ".."`, and likewise for `"."` and the empty string.  The UTF-8 repair
+(`ToValidUTF8` with U+FFFD), the 255-byte cut that keeps the extension, the second repair that
+drops a rune broken by the cut, and the separator replacement never manufacture one of the three
+special names.  (Proof: the repaired string is a fixed point of the second repair; an all-ASCII
+repaired string equals its input; a cut string keeps at least three bytes.) -/
+theorem clean_dotdot_iff (s : Bytes) :
+    (cleanName s = dotdot ↔ s = dotdot) ∧ (cleanName s = dot ↔ s = dot) ∧ (cleanName s = [] ↔ s = []) := by
+  obtain ⟨h1, h2, h3⟩ := cleanName_special s
+  exact ⟨⟨h3, fun e => by rw [e]; decide⟩, ⟨h2, fun e => by rw [e]; decide⟩, ⟨h1, fun e => by rw [e]; decide⟩⟩
+
+theorem clean_dotdot_iff_holds : clean_dotdot_iff_full := cleanName_special
+
 theorem clean_special_conv : cleanName [] = [] ∧ cleanName dot = dot ∧ cleanName dotdot = dotdot := by
   decide
 
-/-! ASCII part of `clean_dotdot_iff`. -/
+/-! ASCII names: `cleanName` is just the separator replacement. -/
 
 theorem toValidAux_ascii (repl : Bytes) (f : Nat) (inv : Bool) (s : Bytes)
     (h : ∀ b ∈ s, b < 0x80) (hf : s.length ≤ f) : toValidAux repl f inv s = s := by
@@ -46,8 +57,7 @@ theorem toValidAux_ascii (repl : Bytes) (f : Nat) (inv : Bool) (s : Bytes)
       simp only [toValidAux, hc, if_true]
       rw [ih false r (fun b hb => h b (by simp [hb])) (by simpa using hf)]
 
-/-- **clean_dotdot_iff_partial.** For names that are ASCII and at most 255 bytes long,
-`cleanName` only replaces separators, hence yields `""`, `"."`, `".."` only for these inputs. -/
+/-- For names that are ASCII and at most 255 bytes long `cleanName` only replaces separators. -/
 theorem clean_special_ascii (s : Bytes) (h : ∀ b ∈ s, b < 0x80) (hl : s.length ≤ 255) :
     cleanName s = replaceSeparator s ∧
     (cleanName s = [] → s = []) ∧ (cleanName s = dot → s = dot) ∧ (cleanName s = dotdot → s = dotdot) := by
@@ -119,7 +129,7 @@ theorem accepted_parts (hc : clean_dotdot_iff_full) (p : Params) (ib : InfoIn) (
     rw [hany] at hfiles
     cases hfiles
 
-/-- **join_confined (partial: under `clean_dotdot_iff_full`).** For every input accepted by
+/-- **join_confined (as a function of `clean_dotdot_iff_full`).** For every input accepted by
 `NewInfo`, every file path is *confined*: relative, every component a real name (not empty, not
 `.`, not `..`).  Hence, for a clean absolute data directory `root` (what `filepath.Abs` gives),
 the path `filestorage.Open` hands to the OS is exactly `root/path`, component-wise below `root` —
@@ -156,6 +166,18 @@ theorem join_confined_partial (hc : clean_dotdot_iff_full) (p : Params) (ib : In
   refine ⟨hconf, ?_⟩
   intro dataDir id incl hd hid f hf
   exact storagePath_under _ _ (dataDirOf_cleanAbs dataDir id incl hd hid) (hconf f hf)
+
+/-- **join_confined.** `join_confined_partial` with its hypothesis discharged by
+`clean_dotdot_iff`: unconditional for every accepted input. -/
+theorem join_confined (p : Params) (ib : InfoIn) (o : InfoOut)
+    (hh : p.hashHex ≠ [] ∧ p.hashHex ≠ dot ∧ p.hashHex ≠ dotdot)
+    (h : newInfo p ib = .ok o) :
+    (∀ f ∈ o.files, Confined f.path = true) ∧
+    (∀ dataDir id incl, CleanAbs dataDir → GoodComp id →
+      ∀ f ∈ o.files,
+        storagePath (dataDirOf dataDir id incl) f.path = dataDirOf dataDir id incl ++ SLASH :: f.path ∧
+        Under (dataDirOf dataDir id incl) (storagePath (dataDirOf dataDir id incl) f.path) = true) :=
+  join_confined_partial clean_dotdot_iff_holds p ib o hh h
 
 /-- **paths_unique.** In an accepted description, the non-padding files have pairwise different
 paths (no two files of one torrent resolve to the same file on disk). -/
